@@ -180,8 +180,10 @@ class tensor:
             ), "TTB:WrongSize, Size of data does not match specified size of tensor"
 
         # Make sure the data is indeed the right shape
-        if data.size > 0 and len(shape) > 0:
+        if len(shape) > 0:
             # reshaping using Fortran ordering to match Matlab conventions
+            # (zero-size data too: the array gets the requested shape, and a
+            # negative size hidden behind a zero size is rejected)
             data = np.reshape(data, np.array(shape), order=self.order)
 
         # Create the tensor
